@@ -282,7 +282,7 @@ def end_of_data_rule(prog, rep, RULE='R03.8'):
             subs.append((bl.idx, t.cmethod, t.args[0]))
     rel = []
     for (bb, how, minuend) in subs:
-        o = origins(body, [minuend.place[0]])
+        o = origins(body, [minuend.place[0]], through_calls=False)      # arithmetic on the remainder only (sums, casts, copies)
         rs = [r for r in rems if r in o.locals]
         if rs:
             rel.append((bb, how, minuend, rs))
@@ -415,7 +415,8 @@ def run(prog, rep, tier):
     # allowlist above; positive control that they call them at all
     for tr, m, want in (('std::io::Read', 'read', 'read_internal'), ('std::io::Seek', 'seek', 'load_in_cache')):
         bs = [b for b in mla.bodies if b.impl_adt == 'layers::encrypt::EncryptionLayerInternal' and b.impl_trait == tr and b.name == m]
-        ok = bool(bs) and any(c.term.cdef == INTERNAL + want for c in bs[0].calls())
+        # (directly, or through private helpers of the layer: exactly resolved same-crate calls)
+        ok = bool(bs) and any(c.term.cdef == INTERNAL + want for b2 in reachable_bodies(prog, [bs[0]]) if b2.pkg == 'mla' and b2.impl_adt == 'layers::encrypt::EncryptionLayerInternal' for c in b2.calls())
         rep.ob('R03.2', ok, 'R03.2|EncryptionLayerInternal|%s::%s|uses|%s' % (tr, m, want),
                'normal reader %s::%s goes through authenticated %s' % (tr, m, want) if ok else
                '<EncryptionLayerInternal as %s>::%s does not call %s (anchor lost)' % (tr, m, want),
